@@ -41,43 +41,42 @@ def check(ctx):
         tp = tract.methods.get(a)
         if tp is not None and a != 'trs':
             body = norm(tp.node.body[-1])
-            ctx.check(body == f"return self.__trs.{a}", 'SIB', f"Tract.{a} -> TRS.{a}",
-                      detail_bad=f"Tract.{a} is `{body}`", key=f"SIB|Tract.{a}")
+            other = [x for x in ATTRS + ('twprge',) if x != a and body == f"return self.__trs.{x}"]
+            ctx.tri(body == f"return self.__trs.{a}", bool(other), 'SIB', f"Tract.{a} -> TRS.{a}",
+                    detail_bad=f"Tract.{a} returns the TRS's `{other[0] if other else ''}`", key=f"SIB|Tract.{a}")
         rp = trs.methods.get(a)
         if rp is None:
             ctx.violation('SIB', f"TRS.{a}", "property missing", key=f"SIB|TRS.{a}|missing")
             continue
         getter = rp.node
         body = norm(getter.body[-1])
-        ctx.check(body == f"return self.__trs_dict['{a}']", 'SIB', f"TRS.{a} -> dict key '{a}'",
-                  detail_bad=f"TRS.{a} is `{body}`", key=f"SIB|TRS.{a}")
+        other = [x for x in ATTRS if x != a and body == f"return self.__trs_dict['{x}']"]
+        ctx.tri(body == f"return self.__trs_dict['{a}']", bool(other), 'SIB', f"TRS.{a} -> dict key '{a}'",
+                detail_bad=f"TRS.{a} reads key '{other[0] if other else ''}'", key=f"SIB|TRS.{a}")
         ctx.check(a in keys, 'SIB', f"trs_to_dict produces key '{a}'",
                   detail_bad=f"key {a!r} missing from the decomposition", key=f"SIB|trs_to_dict|{a}")
     # Tract.trs getter (first definition is the property getter)
     tget = [st for st in tract.node.body if isinstance(st, ast.FunctionDef) and st.name == 'trs']
-    ctx.check(bool(tget) and norm(tget[0].body[-1]) == 'return self.__trs.trs', 'SIB', 'Tract.trs -> TRS.trs',
-              detail_bad="Tract.trs getter changed", key="SIB|Tract.trs")
+    ctx.shape(bool(tget) and norm(tget[0].body[-1]) == 'return self.__trs.trs', 'SIB', 'Tract.trs -> TRS.trs')
     tset = [st for st in tract.node.body if isinstance(st, ast.FunctionDef) and st.name == 'trs'][-1]
-    ctx.check('self.__trs = TRS(new_trs)' in ' '.join(norm(s) for s in tset.body), 'SIB',
-              'Tract.trs setter wraps the value in a TRS', detail_bad="setter no longer builds a TRS",
-              key="SIB|Tract.trs.setter")
+    ctx.shape('self.__trs = TRS(new_trs)' in ' '.join(norm(s) for s in tset.body), 'SIB',
+              'Tract.trs setter wraps the value in a TRS')
     for cls, ci in (('Tract', tract), ('TRS', trs)):
         f = ci.methods['twprge']
         b = norm(f.node.body[-1])
         want = "return self.__trs.twprge" if cls == 'Tract' else None
         if cls == 'Tract':
-            ctx.check(b == want, 'SIB', 'Tract.twprge -> TRS.twprge', detail_bad=f"`{b}`", key="SIB|Tract.twprge")
+            ctx.shape(b == want, 'SIB', 'Tract.twprge -> TRS.twprge')
         else:
             v = f.node.body[-1].value
             ok = isinstance(v, ast.JoinedStr) and [norm(x.value) for x in v.values if isinstance(x, ast.FormattedValue)] \
                 == ["self.__trs_dict['twp']", "self.__trs_dict['rge']"] \
                 and not any(isinstance(x, ast.Constant) and x.value for x in v.values)
-            ctx.check(ok, 'SIB', 'TRS.twprge == twp + rge', detail_bad=f"`{b}`", key="SIB|TRS.twprge")
+            ctx.shape(ok, 'SIB', 'TRS.twprge == twp + rge')
     # aliases
     for ci, nm in ((tract, 'Tract'), (trs, 'TRS')):
         al = {norm(st) for st in ci.node.body if isinstance(st, ast.Assign)}
-        ctx.check('ns = twp_ns' in al and 'ew = rge_ew' in al, 'SIB', f"{nm}.ns/.ew alias twp_ns/rge_ew",
-                  detail_bad="aliases changed", key=f"SIB|{nm}|aliases")
+        ctx.shape('ns = twp_ns' in al and 'ew = rge_ew' in al, 'SIB', f"{nm}.ns/.ew alias twp_ns/rge_ew")
 
     # strict decomposition (same rules as C12, necessary here too)
     c12.anchored_calls(ctx, t2d, min_calls=1)
@@ -88,6 +87,8 @@ def check(ctx):
                   detail_bad=f"{s!r} is read as a valid-looking Twp/Rge/Sec",
                   key=f"RX-LANG-NEG|unpacker|{s}")
 
+    # the string and its decomposition cannot disagree (shared with C12)
+    ctx.attempt(c12._siblings, t2d, ctx.repo.func('TRS.construct_trs'))
     ctx.attempt(_placeholders)
     ctx.attempt(_hand_down)
 
@@ -96,10 +97,10 @@ def _placeholders(ctx):
     for meth, const in (('ChunkParser.get_next_sec', '_ERR_SEC'), ('ChunkParser.get_next_twprge', '_ERR_TWPRGE')):
         fi = ctx.repo.func(meth)
         t = ' '.join(norm(s) for s in walk_local(fi.node) if isinstance(s, ast.stmt))
-        ctx.check(f"MasterConfig.{const}" in t and '_UNDEF' not in t, 'TBL',
-                  f"{meth} falls back to the error placeholder {const}",
-                  detail_bad=f"{meth} stages something other than MasterConfig.{const} when nothing is left",
-                  key=f"TBL|{meth}|fallback")
+        ctx.tri(f"MasterConfig.{const}" in t and '_UNDEF' not in t, '_UNDEF' in t, 'TBL',
+                f"{meth} falls back to the error placeholder {const}",
+                detail_bad=f"{meth} stages an 'undefined' placeholder when nothing is left",
+                key=f"TBL|{meth}|fallback")
     # no undefined placeholder anywhere in the description parser
     mod = ctx.repo.module('plssdesc.plss_parse')
     undef = [n for n in ast.walk(mod.tree) if isinstance(n, ast.Attribute) and n.attr.startswith('_UNDEF')]
@@ -110,9 +111,8 @@ def _placeholders(ctx):
     # prep_new_tract resets the used section to the error placeholder
     fi = ctx.repo.func('ChunkParser._parse_meaningful.prep_new_tract')
     t = ' '.join(norm(s) for s in fi.node.body)
-    ctx.check('self.working_sec = [MasterConfig._ERR_SEC]' in t, 'TBL',
-              'a used section is replaced by the error placeholder',
-              detail_bad="working_sec is not reset to [_ERR_SEC] after use", key="TBL|prep_new_tract|reset")
+    ctx.shape('self.working_sec = [MasterConfig._ERR_SEC]' in t, 'TBL',
+              'a used section is replaced by the error placeholder')
     # trs = twprge + sec
     ct = ctx.repo.func('PLSSParser.construct_tracts')
     ok = False
@@ -122,15 +122,12 @@ def _placeholders(ctx):
             if parts == ["tract_data['twprge']", 'sec'] and not any(
                     isinstance(v, ast.Constant) and v.value for v in n.value.values):
                 ok = True
-    ctx.check(ok, 'DEFUSE', "construct_tracts: trs = f\"{twprge}{sec}\"",
-              detail_bad="the TRS handed to Tract is no longer twprge followed by the section",
-              key="DEFUSE|construct_tracts|trs")
+    ctx.shape(ok, 'DEFUSE', "construct_tracts: trs = f\"{twprge}{sec}\"")
     # values flowing into twprge: twprge_natural_to_short(unpack_twprge(mo))
     nm = ctx.repo.func('TwpRgeFinder.findall_matching_twprge.new_match')
     t = ' '.join(norm(s) for s in nm.node.body)
-    ctx.check('unpack_twprge(mo)' in t and 'twprge_natural_to_short(twprge)' in t, 'DEFUSE',
-              'Twp/Rge markers carry twprge_natural_to_short(unpack_twprge(match))',
-              detail_bad="marker value no longer standardised", key="DEFUSE|TwpRgeFinder.new_match")
+    ctx.shape('unpack_twprge(mo)' in t and 'twprge_natural_to_short(twprge)' in t, 'DEFUSE',
+              'Twp/Rge markers carry twprge_natural_to_short(unpack_twprge(match))')
 
 
 def _kwargs(call):
@@ -142,60 +139,69 @@ def _hand_down(ctx):
     calls = [c for c in walk_local(ct.node) if isinstance(c, ast.Call) and dotted(c.func) == 'Tract']
     if len(calls) != 1:
         raise AnalysisError("construct_tracts: expected one Tract(...) call")
-    kw = _kwargs(calls[0])
+    from .c13 import _consumer_kwargs
+    call_, kwx = _consumer_kwargs(ctx, ct, 'Tract')
+    wrong_src = {'orig_desc': {'self.text'}, 'source': set(), 'orig_index': set(), 'config': set(), 'parse_qq': set()}
     for k, want in (('source', 'self.source'), ('orig_desc', 'self.orig_text'),
                     ('orig_index', 'self.next_tract_uid'), ('config', 'self.handed_down_config'),
                     ('parse_qq', 'self.parse_qq')):
-        ctx.check(kw.get(k) == want, 'DEFUSE', f"construct_tracts: Tract({k}={want})",
-                  detail_bad=f"Tract receives {k}={kw.get(k)}", key=f"DEFUSE|construct_tracts|{k}")
+        if k not in kwx:
+            ctx.undecided('DEFUSE', f"construct_tracts: Tract({k}=...)", 'keyword not found')
+            continue
+        attrs = flow.prov_attrs(flow.provenance(ct.node, kwx[k]))
+        ctx.tri(want in attrs, bool(attrs & wrong_src[k]) and want not in attrs, 'DEFUSE',
+                f"construct_tracts: Tract({k}=...) derives from {want}",
+                detail_bad=f"Tract receives {k}={norm(kwx[k])}, derived from {sorted(attrs)} (not {want}): "
+                           f"the tract records the preprocessed text instead of the original",
+                key=f"DEFUSE|construct_tracts|{k}")
     args = [norm(a) for a in calls[0].args]
-    ctx.check(args[:2] == ['desc', 'trs'], 'DEFUSE', 'construct_tracts: Tract(desc, trs, ...)',
-              detail_bad=f"positional args {args}", key="DEFUSE|construct_tracts|positional")
+    ctx.shape(args[:2] == ['desc', 'trs'], 'DEFUSE', 'construct_tracts: Tract(desc, trs, ...)')
     # counter
     incs = [n for n in walk_local(ct.node) if isinstance(n, ast.AugAssign) and norm(n.target) == 'self.next_tract_uid']
+    loop_of = lambda n: next((p for p in _parents(n) if isinstance(p, ast.For)), None)
     ok = len(incs) == 1 and norm(incs[0]) == 'self.next_tract_uid += 1'
+    bad = False
     if ok:
-        # same loop body as the Tract() call, unconditional
-        loop_of = lambda n: next((p for p in _parents(n) if isinstance(p, ast.For)), None)
-        ok = loop_of(incs[0]) is loop_of(calls[0]) and not guards(incs[0], stop=loop_of(incs[0]))
-    ctx.check(ok, 'DEFUSE', 'construct_tracts: next_tract_uid += 1 exactly once per tract',
-              detail_bad="the creation counter is not incremented once per constructed tract",
-              key="DEFUSE|construct_tracts|counter")
+        # same (innermost) loop as the Tract() call, unconditional
+        same = loop_of(incs[0]) is loop_of(calls[0])
+        bad = not same or bool(guards(incs[0], stop=loop_of(incs[0])))
+        ok = not bad
+    ctx.tri(ok, bad or len(incs) > 1, 'DEFUSE', 'construct_tracts: next_tract_uid += 1 exactly once per tract',
+            detail_bad="the creation counter is not advanced once per constructed tract (outside the per-section "
+                       "loop, conditional, or twice): tracts share / skip orig_index values",
+            key="DEFUSE|construct_tracts|counter")
     init = ctx.repo.func('PLSSParser.__init__')
     t = [norm(s) for s in walk_local(init.node) if isinstance(s, ast.Assign)]
-    ctx.check('self.next_tract_uid = 0' in t, 'DEFUSE', 'PLSSParser: counter starts at 0',
-              detail_bad="next_tract_uid no longer starts at 0", key="DEFUSE|PLSSParser.__init__|counter")
-    ctx.check('self.orig_text = text' in t and 'self.source = source' in t, 'DEFUSE',
-              'PLSSParser keeps the original text and the source tag',
-              detail_bad="orig_text/source no longer stored from the arguments",
-              key="DEFUSE|PLSSParser.__init__|orig")
+    ctx.shape('self.next_tract_uid = 0' in t, 'DEFUSE', 'PLSSParser: counter starts at 0')
+    ot = [n for n in walk_local(init.node) if isinstance(n, ast.Assign) and norm(n.targets[0]) == 'self.orig_text']
+    bad_ot = bool(ot) and 'preprocessor' in norm(ot[0].value) or (bool(ot) and norm(ot[0].value) == 'self.text')
+    ctx.tri('self.orig_text = text' in t and 'self.source = source' in t, bad_ot, 'DEFUSE',
+            'PLSSParser keeps the original text and the source tag',
+            detail_bad="orig_text is set from the preprocessed text", key="DEFUSE|PLSSParser.__init__|orig")
     # orig_text is the parameter itself, not reassigned before
     first_text_store = [n for n in walk_local(init.node) if isinstance(n, ast.Assign)
                         and any(norm(x) == 'text' for x in n.targets)]
-    ctx.check(not first_text_store, 'DEFUSE', 'PLSSParser.__init__ does not rebind `text`',
-              detail_bad="`text` is rebound inside __init__", key="DEFUSE|PLSSParser.__init__|rebind")
+    ctx.shape(not first_text_store, 'DEFUSE', 'PLSSParser.__init__ does not rebind `text`')
     # PLSSDesc.parse -> PLSSParser(text=self.orig_desc, source=self.source)
     pp = ctx.repo.func('PLSSDesc.parse')
     calls = [c for c in walk_local(pp.node) if isinstance(c, ast.Call) and dotted(c.func) == 'PLSSParser']
     if len(calls) != 1:
         raise AnalysisError("PLSSDesc.parse: expected one PLSSParser(...) call")
     kw = _kwargs(calls[0])
-    ctx.check(kw.get('text') == 'self.orig_desc', 'DEFUSE', 'PLSSDesc.parse parses the original text',
-              detail_bad=f"PLSSParser receives text={kw.get('text')}", key="DEFUSE|PLSSDesc.parse|text")
-    ctx.check(kw.get('source') == 'self.source', 'DEFUSE', 'PLSSDesc.parse hands down the source tag',
-              detail_bad=f"PLSSParser receives source={kw.get('source')}", key="DEFUSE|PLSSDesc.parse|source")
+    ctx.tri(kw.get('text') == 'self.orig_desc', kw.get('text') in ('self.pp_desc',), 'DEFUSE',
+            'PLSSDesc.parse parses the original text',
+            detail_bad=f"PLSSParser receives text={kw.get('text')}: tracts record the preprocessed text as their original",
+            key="DEFUSE|PLSSDesc.parse|text")
+    ctx.shape(kw.get('source') == 'self.source', 'DEFUSE', 'PLSSDesc.parse hands down the source tag')
     pi = ctx.repo.func('PLSSDesc.__init__')
     t = [norm(s) for s in walk_local(pi.node) if isinstance(s, ast.Assign)]
-    ctx.check('self.orig_desc = raw_plss' in t and 'self.source = source' in t, 'DEFUSE',
-              'PLSSDesc stores the raw text and source',
-              detail_bad="orig_desc/source not stored from the arguments", key="DEFUSE|PLSSDesc.__init__|orig")
+    ctx.shape('self.orig_desc = raw_plss' in t and 'self.source = source' in t, 'DEFUSE',
+              'PLSSDesc stores the raw text and source')
     ti = ctx.repo.func('Tract.__init__')
     t = [norm(s) for s in walk_local(ti.node) if isinstance(s, ast.Assign)]
     for a in ('orig_index', 'source', 'orig_desc', 'desc'):
-        ctx.check(f"self.{a} = {a}" in t, 'DEFUSE', f"Tract.__init__ stores {a}",
-                  detail_bad=f"self.{a} is not set from the argument", key=f"DEFUSE|Tract.__init__|{a}")
-    ctx.check('self.trs = trs' in t, 'DEFUSE', 'Tract.__init__ routes trs through the setter',
-              detail_bad="trs not assigned", key="DEFUSE|Tract.__init__|trs")
+        ctx.shape(f"self.{a} = {a}" in t, 'DEFUSE', f"Tract.__init__ stores {a}")
+    ctx.shape('self.trs = trs' in t, 'DEFUSE', 'Tract.__init__ routes trs through the setter')
 
 
 def _parents(n):
